@@ -29,7 +29,8 @@ ASSUMPTIONS = [
     "END / NAM / EQU / SETDP rows may show any address (no property fixes it)",
 ]
 HEALTH = {"accepted": 0.2, "nontrivial_layout": 0.12, "negative": 0.02, "through_include": 600}
-EXHAUSTIVE = {"quick": ["every third program of the C03 label,PCR distance families (single, spanning, crossing), judged by the layout walk"],
+EXHAUSTIVE = {"quick": ["EQU aliases of a label (plain / +2 / -1, direct or through a second EQU, before or after the label) at two origins",
+                        "every third program of the C03 label,PCR distance families (single, spanning, crossing), judged by the layout walk"],
               "thorough": ["all programs of the C03 label,PCR distance families, judged by the layout walk"]}
 
 _neg = st.sampled_from(["dup_label", "undef_symbol", "second_org", "code_before_org", "org_here", "org_here", "org_twice"])
@@ -114,7 +115,45 @@ def _from_items(case):
     return {"org": case["org"], "stmts": stmts}
 
 
+def alias_cases():
+    """EQU symbols that stand for a label (plain, +n, -n, through a second EQU), defined before or after the label:
+    the symbol table must give them the label's listing address (+-n), and uses must encode that value"""
+    for org in (0x0E00, 0x0010):
+        for k in (0, 2, -1):
+            for where in ("before", "after"):
+                for chain in (False, True):
+                    yield dict(alias=dict(org=org, k=k, where=where, chain=chain))
+
+
+def execute_alias(case):
+    a = case["alias"]
+    expr = "START" + ("" if a["k"] == 0 else "%+d" % a["k"])
+    define = ["ENTRY EQU {}\n".format(expr)] + (["VECTOR EQU ENTRY\n"] if a["chain"] else [])
+    use = "VECTOR" if a["chain"] else "ENTRY"
+    lines = [" ORG $%04X\n" % a["org"]] + (define if a["where"] == "before" else []) + [" LDX #{}\n".format(use), " NOP \n", "START LDA #1\n", " FDB {}\n".format(use)] \
+        + (define if a["where"] == "after" else []) + [" RTS \n"]
+    labels = ["alias"]
+    out = driver.assemble(lines)
+    if out.kind in ("CRASH", "HANG"):
+        return skip("crash/hang: judged by C13", labels=labels)
+    if out.kind != "OK":
+        return viol("valid program rejected ({}): {!r}".format(out.message, [l.strip() for l in lines]), fid="C02:alias-rejected", labels=labels)
+    start = a["org"] + 4                      # LDX #nn (3) + NOP (1)
+    want = (start + a["k"]) % 65536
+    syms = dict(out.symbols)
+    for name, value in (("START", start), ("ENTRY", want)) + ((("VECTOR", want),) if a["chain"] else ()):
+        if syms.get(name) != value:
+            return viol("symbol table gives {} = {}, expected ${:04X}: {!r}".format(name, syms.get(name), value, [l.strip() for l in lines]),
+                        fid="C02:alias-symbol", labels=labels)
+    img = out.image
+    if img[:3] != bytes([0x8E, want >> 8, want & 0xFF]) or img[6:8] != bytes([want >> 8, want & 0xFF]) or len(img) != 9:
+        return viol("image {} does not encode the alias value ${:04X}: {!r}".format(img.hex(), want, [l.strip() for l in lines]),
+                    fid="C02:alias-image", labels=labels)
+    return ok(labels=labels, nontrivial=True)
+
+
 def enumerated(tier, seed):
+    yield from alias_cases()
     # the sizes of PC-relative statements decide every later address: re-use C03's distance families
     from checks import c03
     for i, case in enumerate(c03.enumerated("quick", seed)):
@@ -204,6 +243,8 @@ def apply_negative(case):
 
 
 def render(case):
+    if case.get("alias"):
+        return case
     if case.get("inc"):
         prog, files, main = with_includes(case)
         return dict(files=dict((k, [l.rstrip("\n") for l in v]) for k, v in files.items()))
@@ -212,6 +253,8 @@ def render(case):
 
 
 def execute(case):
+    if case.get("alias"):
+        return execute_alias(case)
     labels = []
     if case.get("inc"):
         prog, files, main = with_includes(case)
